@@ -4,9 +4,16 @@
 //! strings, frames, stacks, libraries, pids, tids and start times repeat and collide.
 use crate::common::*;
 
-/// formats of the harness's three static-schema marker types (u = unique-string, s = other string
+/// formats of the harness's static-schema marker types (u = unique-string, s = other string
 /// kind, n = number); mirrored by `PT.staticSchema` in the Lean model
-pub const STATIC_FORMATS: [&str; 3] = ["u", "unsnu", ""];
+pub const STATIC_FORMATS: [&str; 4] = ["u", "unsnu", "", "sunsn"];
+
+/// is the format letter of the `mtype` op a string-kind format? (u String, U|s Url, P FilePath, Z SanitizedString)
+pub fn is_string_format(ch: char) -> bool {
+    matches!(ch, 'u' | 'U' | 's' | 'P' | 'Z')
+}
+/// all format letters: the 14 `MarkerFieldFormat`s (+ the two aliases of the first round)
+pub const FORMAT_LETTERS: &str = "uUsPZDTSMCNBpind";
 
 const STRS: [&str; 12] = ["a", "b", "main", "libfoo", "0x10", "0x1f", "f", "sym1", "", "0x2a", "Other", "libbar"];
 const LIBS: [&str; 7] = ["libfoo", "libbar", "main", "a", "v1/libfoo", "v2/libfoo", "x/a"];
@@ -379,17 +386,29 @@ impl<'a> G<'a> {
     fn add_mtype(&mut self) -> usize {
         let r = self.reg("mt");
         let c = self.a_cat();
-        let fmt = *self.rng.pick(&["-", "u", "s", "n", "us", "nu", "unsnu", "uu", "sn"]);
+        // half of the schemas: a fixed small word; the other half: 1-6 letters over all 14 formats, with the
+        // string-kind formats other than String (FilePath, SanitizedString, Url) over-represented next to String
+        let fmt: String = if self.rng.chance(1, 2) {
+            self.rng.pick(&["-", "u", "s", "n", "us", "nu", "unsnu", "uu", "sn", "uP", "Zu", "PZU", "uDZTu"]).to_string()
+        } else {
+            let n = 1 + self.pick_idx(6);
+            (0..n)
+                .map(|_| {
+                    let pool: &[u8] = if self.rng.chance(1, 2) { b"uPZUu" } else { FORMAT_LETTERS.as_bytes() };
+                    pool[self.rng.below(pool.len() as u64) as usize] as char
+                })
+                .collect()
+        };
         let name = format!("rt{}", self.mtypes.len());
         self.push(format!("mtype {r} {} {c} {fmt}", hx(&name)));
-        self.mtypes.push((r, if fmt == "-" { String::new() } else { fmt.to_string() }));
+        self.mtypes.push((r, if fmt == "-" { String::new() } else { fmt }));
         self.mtypes.len() - 1
     }
     fn add_marker(&mut self) {
         let t = self.any_thread();
         let treg = self.threads[t].reg.clone();
         let (spec, fmt) = if self.rng.chance(1, 2) {
-            let k = self.pick_idx(3);
+            let k = self.pick_idx(STATIC_FORMATS.len());
             (format!("st:{k}"), STATIC_FORMATS[k].to_string())
         } else {
             let i = if !self.mtypes.is_empty() && self.rng.chance(2, 3) { self.pick_idx(self.mtypes.len()) } else { self.add_mtype() };
@@ -398,10 +417,12 @@ impl<'a> G<'a> {
         let name = self.a_string();
         let mut args = Vec::new();
         for ch in fmt.chars() {
-            if ch != 'n' {
+            if is_string_format(ch) {
                 args.push(self.a_string());
             }
         }
+        // all four `MarkerTiming` variants (no suffix = Instant, as in the first round's corpus)
+        let spec = format!("{spec}{}", self.rng.pick(&["", ":i", ":v", ":s", ":e", ":v", ":e"]));
         let r = self.reg("m");
         self.push(format!("marker {r} {treg} {spec} {name} {}", args.join(" ")).trim_end().to_string());
         self.threads[t].markers.push(r.clone());
@@ -833,6 +854,33 @@ pub fn fixed_cases(_tier: Tier) -> Vec<Case> {
             "mstack t1 m1 -",
             "mstack t2 m5 -",
             "mstack t2 m1 -",
+        ],
+    ));
+    // all four MarkerTiming variants, all 14 MarkerFieldFormats (string-kind formats other than String next to
+    // String fields: the `== MarkerFieldFormat::String` tests of add_marker and of the serializer must agree)
+    v.push(case(
+        "marker-timings-and-formats",
+        &[
+            &format!("process p1 1 0 {a}"),
+            "thread t1 p1 1 0 1",
+            &format!("string s1 {a}"),
+            &format!("string s2 {b}"),
+            &format!("string s3 {}", hx("/a/b.rs")),
+            &format!("cat c1 {} 8", hx("JS")),
+            &format!("mtype mt1 {} c1 uUPZDTSMCNBpid", hx("rt0")),
+            &format!("mtype mt2 {} c1 PuZ", hx("rt1")),
+            "marker m1 t1 rt:mt1:v s1 s1 s2 s3 s2",
+            "marker m2 t1 rt:mt2:e s2 s3 s1 s2",
+            "marker m3 t1 rt:mt2:s s2 s2 s2 s3",
+            "marker m4 t1 st:3:v s1 s3 s2 s1",
+            "marker m5 t1 st:3 s1 s1 s1 s1",
+            "marker m6 t1 st:1:e s1 s1 s2 s2",
+            "marker m7 t1 st:2:s s3",
+            "flabel f1 t1 s1 o 0",
+            "stack k1 t1 f1 -",
+            "mstack t1 m2 k1",
+            "mstack t1 m4 k1",
+            "sample t1 1 k1 0",
         ],
     ));
     // rejected uses
